@@ -19,12 +19,15 @@ import (
 	"fmt"
 	"math"
 	"math/big"
+	"net"
 	"net/http"
 	"net/http/httptest"
+	"os"
 	"sort"
 	"strconv"
 	"strings"
 	"sync"
+	"syscall"
 	"time"
 
 	"github.com/go-logr/logr"
@@ -58,7 +61,7 @@ type waitSc struct {
 
 type attemptSc struct {
 	Out           string `json:"out"`      // succ | retry | fatal
-	ErrKind       string `json:"err_kind"` // plain | canceled | deadline : what the error returned by fn Is
+	ErrKind       string `json:"err_kind"` // canceled | deadline (the error Is a context error) or one of errShapes (it is not)
 	CtxEndsIn     bool   `json:"ctx_ends_in,omitempty"`
 	CtxEndsInWait bool   `json:"ctx_ends_in_wait,omitempty"`
 }
@@ -705,25 +708,101 @@ func (c *sctx) end(kind string) {
 
 var errRetriable = errors.New("harness: retriable")
 
+// errShapes: what an attempt's error looks like when it is NOT a context error.  Whatever the shape, the caller must
+// receive this very error when it is the last one and the context is alive.
+var errShapes = []string{"plain", "common-timeout", "common-cancelled", "common-notfound", "timeout-method", "path-deadline", "syscall-eagain",
+	"path-etimedout", "net-op", "joined-deadline", "wrapped-timeout"}
+
+func shapeCode(kind string) int64 {
+	for i, s := range errShapes {
+		if s == kind {
+			return int64(i)
+		}
+	}
+	return 0
+}
+
+// shapes whose identity marker is a string inside a standard error type: they cannot be matched by RetryOnError's list
+func markerless(kind string) bool {
+	return kind == "path-deadline" || kind == "syscall-eagain" || kind == "path-etimedout"
+}
+
+// scriptErr is the per-attempt marker (identity = id)
 type scriptErr struct {
 	id        int
 	kind      string
 	retriable bool
+	timeout   bool    // Timeout() and Temporary(), like a net.Error
+	inner     []error // what the error wraps
 }
 
 func (e *scriptErr) Error() string {
 	return fmt.Sprintf("harness: attempt %d failed (%s)", e.id, e.kind)
 }
-func (e *scriptErr) Unwrap() error {
-	switch e.kind {
-	case "canceled":
-		return context.Canceled
-	case "deadline":
-		return context.DeadlineExceeded
-	}
-	return nil
-}
+func (e *scriptErr) Unwrap() []error { return e.inner }
+func (e *scriptErr) Timeout() bool   { return e.timeout }
+func (e *scriptErr) Temporary() bool { return e.timeout }
 func (e *scriptErr) Is(t error) bool { return t == errRetriable && e.retriable }
+
+func markerString(id int, retriable bool) string {
+	return fmt.Sprintf("harness-attempt-%d-%v", id, retriable)
+}
+
+func mkErr(id int, kind string, retriable bool) error {
+	se := &scriptErr{id: id, kind: kind, retriable: retriable}
+	switch kind {
+	case "canceled":
+		se.inner = []error{context.Canceled}
+	case "deadline":
+		se.inner = []error{context.DeadlineExceeded}
+	case "common-timeout": // the operation itself reports a timeout of its own while the context is alive
+		se.inner = []error{commonerrors.ErrTimeout}
+	case "common-cancelled":
+		se.inner = []error{commonerrors.ErrCancelled}
+	case "common-notfound":
+		se.inner = []error{commonerrors.ErrNotFound}
+	case "timeout-method":
+		se.timeout = true
+	case "path-deadline": // an expired i/o deadline
+		return &os.PathError{Op: "read", Path: markerString(id, retriable), Err: os.ErrDeadlineExceeded}
+	case "syscall-eagain":
+		return &os.SyscallError{Syscall: markerString(id, retriable), Err: syscall.EAGAIN}
+	case "path-etimedout":
+		return &os.PathError{Op: "connect", Path: markerString(id, retriable), Err: syscall.ETIMEDOUT}
+	case "net-op":
+		se.timeout = true
+		return &net.OpError{Op: "dial", Net: "tcp", Err: se}
+	case "joined-deadline":
+		return errors.Join(se, os.ErrDeadlineExceeded)
+	case "wrapped-timeout":
+		se.timeout = true
+		return fmt.Errorf("operation failed: %w", se)
+	}
+	return se
+}
+
+// markerOf finds the attempt an error comes from
+func markerOf(err error) (id int, retriable bool, ok bool) {
+	var se *scriptErr
+	if errors.As(err, &se) {
+		return se.id, se.retriable, true
+	}
+	var m string
+	var pe *os.PathError
+	var sy *os.SyscallError
+	switch {
+	case errors.As(err, &pe):
+		m = pe.Path
+	case errors.As(err, &sy):
+		m = sy.Syscall
+	default:
+		return 0, false, false
+	}
+	if n, _ := fmt.Sscanf(m, "harness-attempt-%d-%t", &id, &retriable); n == 2 {
+		return id, retriable, true
+	}
+	return 0, false, false
+}
 
 type call struct {
 	K         int  `json:"k"`
@@ -781,7 +860,7 @@ func execRetry(sc *retrySc) (o retryObs) {
 		if a.Out == "succ" {
 			return nil
 		}
-		return &scriptErr{id: k, kind: a.ErrKind, retriable: a.Out == "retry"}
+		return mkErr(k, a.ErrKind, a.Out == "retry")
 	}
 	pol := &retry.RetryPolicyConfiguration{Enabled: sc.Enabled, RetryMax: sc.RetryMax, RetryWaitMin: time.Duration(sc.WaitNs), RetryWaitMax: time.Duration(sc.WaitNs),
 		BackOffEnabled: sc.Delay != "fixed", LinearBackOffEnabled: sc.Delay == "linear"}
@@ -796,9 +875,8 @@ func execRetry(sc *retrySc) (o retryObs) {
 			return
 		}
 		resCh <- retry.RetryIf(ctx, logr.Discard(), pol, fn, "harness", func(err error) bool {
-			var se *scriptErr
-			if errors.As(err, &se) {
-				return se.retriable
+			if _, retriable, ok := markerOf(err); ok {
+				return retriable
 			}
 			mu.Lock()
 			o.CondOnForeignErr++
@@ -821,13 +899,13 @@ func execRetry(sc *retrySc) (o retryObs) {
 	}
 	o.CtxDone = ctx.Err() != nil
 	wg.Wait()
-	var se *scriptErr
+	mid, _, marked := markerOf(err)
 	switch {
 	case err == nil:
 		o.Res = "nil"
-	case errors.As(err, &se):
-		o.ResID = se.id
-		switch se.kind {
+	case marked: // the very error of attempt mid
+		o.ResID = mid
+		switch attemptAt(sc, mid).ErrKind {
 		case "canceled":
 			o.Res = "rawcanceled"
 		case "deadline":
@@ -909,12 +987,12 @@ func oracleRetry(r *h.Run, sc *retrySc, o retryObs) {
 		last := attemptAt(sc, o.Calls[len(o.Calls)-1].K)
 		lastK := o.Calls[len(o.Calls)-1].K
 		switch last.ErrKind {
-		case "plain":
-			okRes = o.Res == "plain" && o.ResID == lastK
 		case "canceled":
 			okRes = o.Res == "cancelled" || (!sc.Enabled && o.Res == "rawcanceled" && o.ResID == lastK)
 		case "deadline":
 			okRes = o.Res == "timeout" || (!sc.Enabled && o.Res == "rawdeadline" && o.ResID == lastK)
+		default: // not a context error, whatever its shape: this very error
+			okRes = o.Res == "plain" && o.ResID == lastK
 		}
 	}
 	if !okRes && ctxEnded {
@@ -922,6 +1000,9 @@ func oracleRetry(r *h.Run, sc *retrySc, o retryObs) {
 	}
 	if !okRes {
 		what := fmt.Sprintf("the caller received %s (id %d), which is neither the last attempt's error nor the context's end", o.Res, o.ResID)
+		if n := len(o.Calls); n > 0 && !ctxEnded {
+			what += fmt.Sprintf(" — the context is alive and the last attempt failed with an error of shape %q, which is not a context error", attemptAt(sc, o.Calls[n-1].K).ErrKind)
+		}
 		if ctxEnded && sc.Flavor != "" {
 			what += fmt.Sprintf(" — context flavour %s with cause %q ended as %s: the result must be of that kind whatever the cause", sc.Flavor, sc.Cause, sc.CtxKind)
 		}
@@ -936,7 +1017,7 @@ func coqErr(kind string, id int) string {
 	case "deadline":
 		return "(ECtx CtxDeadline)"
 	}
-	return "(EPlain " + h.Z(int64(id)) + ")"
+	return "(EPlain " + h.Z(int64(id)) + " " + h.Z(shapeCode(kind)) + ")"
 }
 
 func coqRetry(sc *retrySc, o retryObs) string {
@@ -978,12 +1059,12 @@ func coqRetry(sc *retrySc, o retryObs) string {
 	for i, c := range o.Calls {
 		cs[i] = h.Bool(c.CtxDone)
 	}
-	res := "(RErr (EPlain (-1)))"
+	res := "(RErr (EPlain (-1) 0))"
 	switch o.Res {
 	case "nil":
 		res = "RNil"
 	case "plain":
-		res = "(RErr (EPlain " + h.Z(int64(o.ResID)) + "))"
+		res = "(RErr " + coqErr(attemptAt(sc, o.ResID).ErrKind, o.ResID) + ")"
 	case "rawcanceled":
 		res = "(RErr (ECtx CtxCancel))"
 	case "rawdeadline":
@@ -1043,11 +1124,16 @@ func genRetry(r *h.Run) retrySc {
 			}
 		}
 		if a.Out != "succ" {
-			switch r.Rng.Intn(10) {
-			case 0:
+			switch x := r.Rng.Intn(10); {
+			case x == 0:
 				a.ErrKind = "canceled"
-			case 1:
+			case x == 1:
 				a.ErrKind = "deadline"
+			case x < 6:
+				a.ErrKind = errShapes[r.Rng.Intn(len(errShapes))]
+				if sc.API == "onerror" && markerless(a.ErrKind) && a.Out == "retry" {
+					a.ErrKind = "net-op"
+				}
 			}
 		} else {
 			a.ErrKind = ""
@@ -1221,6 +1307,23 @@ func retrySweeps(r *h.Run) {
 				retrySc{API: api, Enabled: true, RetryMax: 3, Delay: "fixed", Flavor: fl, Cause: ca, TimeoutMs: tmo, Script: []attemptSc{rt("plain"), fatalEnds, rt("plain")}},
 				retrySc{API: api, Enabled: true, RetryMax: 3, Delay: "fixed", Flavor: fl, Cause: ca, TimeoutMs: tmo, Script: []attemptSc{rt("plain"), succEnds}},
 				retrySc{API: api, Enabled: false, RetryMax: 3, Delay: "fixed", Flavor: fl, Cause: ca, TimeoutMs: tmo, Script: []attemptSc{rtEnds()}},
+			)
+		}
+	}
+	// the shapes of the operation's own errors, context alive: last error after the budget is exhausted, non-retriable
+	// error, disabled policy — the caller must receive that very error (only the context's end becomes cancelled / timeout)
+	for si, shp := range errShapes {
+		for ai, api := range []string{"if", "onerror"} {
+			r1 := rt(shp)
+			if api == "onerror" && markerless(shp) {
+				r1 = rt("net-op")
+			}
+			ft := attemptSc{Out: "fatal", ErrKind: shp}
+			scs = append(scs,
+				retrySc{API: api, Enabled: true, RetryMax: 1 + (si+ai)%3, Delay: "fixed", CtxKind: "cancel", Script: []attemptSc{r1, r1, r1, r1}},
+				retrySc{API: api, Enabled: true, RetryMax: 4, Delay: "fixed", CtxKind: "deadline", Script: []attemptSc{rt("plain"), ft, rt("plain")}},
+				retrySc{API: api, Enabled: true, RetryMax: 3, Delay: "backoff", Flavor: "timeout-cause", Cause: "custom", TimeoutMs: 60000, Script: []attemptSc{r1, ft}},
+				retrySc{API: api, Enabled: false, RetryMax: 3, Delay: "fixed", CtxKind: "cancel", Script: []attemptSc{ft}},
 			)
 		}
 	}
